@@ -328,3 +328,82 @@ def k6(ctx):
                   '%s performs no subtype test of its own' % inst(f),
                   '%s uses a subtype test (%s): subclasses of registered containers would become '
                   'nodes' % (inst(f), [c.callee_name() for c in sub]), f.loc)
+
+
+def _ns_empty_test(e):
+    """+1 if the atom is `registry_namespace.empty()`, -1 for its negation, None otherwise"""
+    sign = 1
+    while e is not None and e.kind == 'UnaryOperator' and e.op == '!' and e.kids:
+        sign = -sign
+        e = e.kids[0]
+    if e is not None and e.kind == 'CXXMemberCallExpr' and e.callee_name() == 'empty':
+        b = e.call_base()
+        if b is not None and b.kind == 'DeclRefExpr' and (b.ref or {}).get('kind') == 'ParmVarDecl' and \
+                'string' in (b.type or ''):
+            return sign, (b.ref or {}).get('name')
+    return None
+
+
+def namespace_facts(cfg, target):
+    """what is known about `<namespace parameter>.empty()` at CFG node `target`: the set of truth
+    values under which `target` can be reached ({True}, {False} or {True, False})"""
+    tests = [cn for cn in cfg.nodes if cn.kind == 'cond' and cn.ast is not None and
+             _ns_empty_test(cn.ast) is not None]
+    vals = set()
+    for want in (True, False):
+        def skip(v, w, lab, want=want):
+            cn = cfg.nodes[v]
+            if cn.kind != 'cond' or cn.ast is None or lab not in (True, False):
+                return False
+            t = _ns_empty_test(cn.ast)
+            if t is None:
+                return False
+            truth = lab if t[0] > 0 else (not lab)      # value of empty() on this edge
+            return truth != want
+        if target in cfg.reachable_from([cfg.entry.idx], skip):
+            vals.add(want)
+    return vals, len(tests)
+
+
+@rule('G6', floor=6, title='a registry mutation addressed to a namespace touches only that namespace\'s map')
+def g6(ctx):
+    """Namespace isolation, mutation half: the global map is written only when the namespace
+    argument is empty, the named map only when it is not, and the named key carries the
+    namespace argument.  (The lookup may fall back from the named to the global map - K6; a
+    mutation may not.)"""
+    prog = ctx.cxx()
+    n = 0
+    for name in ('PyTreeTypeRegistry::RegisterImpl', 'PyTreeTypeRegistry::UnregisterImpl'):
+        fs = [f for f in prog.by_suffix(name) if not f.dependent]
+        ctx.require(len(fs) == 2, '%s: %d instantiations' % (name, len(fs)))
+        for f in fs:
+            cfg = cfg_of(f)
+            muts = _map_calls(f, {'emplace', 'insert', 'try_emplace', 'erase', 'clear', 'operator[]',
+                                  'insert_or_assign', 'extract'})
+            ctx.require(muts, '%s: no mutation of the registry maps found' % inst(f))
+            for c, mp in muts:
+                cn = cfg.cnode_of(c)
+                if cn is None:
+                    continue
+                vals, ntests = namespace_facts(cfg, cn)
+                ctx.require(ntests >= 1, '%s: no test of the namespace argument found' % inst(f))
+                n += 1
+                want = {True} if mp == 'm_registrations' else {False}
+                ctx.check('%s/%s/%s' % (short(f), mp, c.callee_name()), vals == want,
+                          '%s: %s.%s() is reached only when the namespace argument is %s'
+                          % (inst(f), mp, c.callee_name(), 'empty' if mp == 'm_registrations' else 'non-empty'),
+                          '%s: %s.%s() can be reached with %s namespace argument: an operation '
+                          'addressed to one namespace changes what another namespace sees'
+                          % (inst(f), mp, c.callee_name(),
+                             'a non-empty' if mp == 'm_registrations' else 'an empty'), c.loc)
+            # the named key is (namespace argument, cls)
+            for c in calls_in(f.body, {'make_pair'}):
+                a = c.call_args()
+                ok = len(a) == 2 and a[0] is not None and a[0].kind == 'DeclRefExpr' and \
+                    (a[0].ref or {}).get('kind') == 'ParmVarDecl' and 'string' in (a[0].type or '') and \
+                    member_path(a[1]) == 'cls'
+                n += 1
+                ctx.check('%s/named-key' % short(f), ok,
+                          '%s: the named map is keyed by (namespace argument, cls)' % inst(f),
+                          '%s: named-map key is %s' % (inst(f), c.text(4)), c.loc)
+    ctx.require(n >= 6, 'only %d registry mutation sites' % n)
